@@ -69,6 +69,10 @@ def lossy(ctx, R, py, modules):
                         if k_.arg == "dtype" and pyfe.src(k_.value).replace("'", "").replace('"', "").split(".")[-1] in (
                                 "float32", "float16", "half", "single", "f4", "f2", "float_", "longdouble", "int8", "int16", "uint8"):
                             bad.append((x, "narrow element type %s" % pyfe.src(k_.value)))
+                        elif k_.arg == "dtype" and not isinstance(k_.value, (ast.Name, ast.Attribute, ast.Constant)):
+                            # every array of the package is created with a literal element type (float / int); a computed one
+                            # makes the precision of the stored numbers depend on what the caller happened to pass
+                            bad.append((x, "element type computed at run time (%s)" % pyfe.src(k_.value)[:40]))
                 elif _fmt_spec(x):
                     bad.append((x, "fixed-precision formatting"))
             n += 1
